@@ -157,7 +157,9 @@ def gen_project(rng, nmax=7, with_deps=True, with_regen=False, with_pools=False)
         builds.append({"outs": outs, "ex": ex, "im": im, "oo": oo, "opts": opts, "tag": "t%d" % i,
                        "pool": rng.choice(pools)[0] if pools and rng.random() < 0.7 else None})
         outs_all.append(outs)
-    info = {"builds": builds, "sources": sources, "headers": headers, "outs_all": outs_all, "regen": with_regen, "pools": pools}
+    info = {"builds": builds, "sources": sources, "headers": headers, "outs_all": outs_all, "regen": with_regen, "pools": pools,
+            "regen_last": bool(with_regen) and rng.random() < 0.5, "regen_oo": with_regen is True and rng.random() < 0.3,
+            "default": [rng.choice(outs_all)[0]] if with_regen and rng.random() < 0.4 else None}
     return manifest_text(info), info
 
 
@@ -167,8 +169,14 @@ def manifest_text(info):
         lines += ["pool %s" % pn, "  depth = %d" % pd]
     if info.get("regen") == "include":
         pass      # the regeneration statement lives in the wrapper (wrapper_text); this text is rules.ninja
-    elif info.get("regen"):
-        lines += ["rule regen", "  command = cmd regen gen=manifest.in", "build build.ninja: regen manifest.in"]
+    regen_block = []
+    if info.get("regen") and info.get("regen") != "include":
+        regen_block = ["rule regen", "  command = cmd regen gen=manifest.in",
+                       "build build.ninja: regen manifest.in" + (" || cfgstamp" if info.get("regen_oo") else "")]
+        if info.get("regen_oo"):
+            regen_block += ["build cfgstamp: r cfg.src", "  tag = cfg"]
+        if not info.get("regen_last"):
+            lines += regen_block
     for b in info["builds"]:
         l = "build %s: r %s" % (" ".join(b["outs"]), " ".join(b["ex"]))
         if b["im"]:
@@ -181,6 +189,10 @@ def manifest_text(info):
             lines.append("  pool = %s" % b["pool"])
         if b["opts"]:
             lines.append("  opts = %s" % " ".join(b["opts"]))
+    if regen_block and info.get("regen_last"):
+        lines += regen_block
+    if info.get("default"):
+        lines.append("default " + " ".join(info["default"]))
     return "\n".join(lines) + "\n"
 
 
@@ -221,6 +233,9 @@ def gen_history(rng, nmax=6, with_regen=False, ninv=None, with_pools=False):
         put(s, src_content(rng, info["headers"]))
     for h in info["headers"]:
         put(h, "// h v0\n")
+    if info.get("regen_oo"):
+        put("cfg.src", "cfg v0\n")
+    mspell = rng.choice([None, None, None, "./build.ninja", ".//build.ninja"]) if with_regen else None
     invs = []
     outs_flat = [o for os_ in info["outs_all"] for o in os_]
     ninv = ninv or rng.randint(2, 5)
@@ -261,17 +276,26 @@ def gen_history(rng, nmax=6, with_regen=False, ninv=None, with_pools=False):
                         put("build.ninja", text)
                 elif c < 0.9:
                     steps.append("touch %s" % hx(rng.choice(outs_flat)))
+                elif info.get("regen_oo"):
+                    put("cfg.src", "cfg v%d\n" % rng.randint(1, 999))
+                elif info.get("default") and with_regen:
+                    # change the default target (through the generator's template)
+                    info["default"] = [rng.choice(info["outs_all"])[0]]
+                    text = manifest_text(info)
+                    put("rules.in" if with_regen == "include" else "manifest.in", text)
         j = rng.choice([1, 2, 3])
         k = rng.choice([None, None, 1, 2])
         targets = [] if rng.random() < 0.6 else [rng.choice(outs_flat) for _ in range(rng.randint(1, 2))]
+        if with_regen and rng.random() < 0.08:
+            targets = ["build.ninja"]
         script = S.gen_script(rng, rng.randint(0, 8), fail_rate=rng.choice([0, 0, 0, 0.2]), interrupt_rate=rng.choice([0, 0, 0.05]))
-        steps.append(S.inv_cmd(j, k, False, targets, script))
-        invs.append({"j": j, "k": k, "adopt": False, "targets": targets, "files": dict(files), "nsteps": len(steps)})
+        steps.append(S.inv_cmd(j, k, False, targets, script, manifest=mspell))
+        invs.append({"j": j, "k": k, "adopt": False, "targets": targets, "files": dict(files), "nsteps": len(steps), "manifest": mspell})
     return steps, invs, info
 
 
 def clean_scenario(meta):
     """a from-scratch build of the sources as they were at that invocation"""
     steps = ["file %s %s" % (hx(n), hx(c)) for n, c in meta["files"].items()]
-    steps.append(S.inv_cmd(meta["j"], None, False, meta["targets"], "-"))
+    steps.append(S.inv_cmd(meta["j"], None, False, meta["targets"], "-", manifest=meta.get("manifest")))
     return "\n".join(steps)
